@@ -194,6 +194,9 @@ let handle kind fs obs =
        (* raw atom lists (explicit atoms= field): no semantic oracle, the comparison of verdict and save array with the model is the check *)
        let contains s sub = (let n = String.length sub in let rec go i = i + n <= String.length s && (String.sub s i n = sub || go (i + 1)) in go 0) in
        let rawtag = if field fs "atoms" = "-" then "" else if contains mobs "match=1" then ",raw-atoms,raw-match" else ",raw-atoms,raw-nomatch" in
-       (mobs, ok && ok2 && gok, true, Printf.sprintf "exec,%s,%s%s%s%s" expect (if fmt64 then "pe64" else "pe32") tag2 gtag rawtag, (if gok then cls else None)))
+       (mobs, ok && ok2 && gok, true, Printf.sprintf "exec,%s,%s%s%s%s" expect (if fmt64 then "pe64" else "pe32") tag2 gtag rawtag,
+        (* the class F34 excuses the SEMANTIC comparison with den_top only: the grammar oracle and the layout synthesiser's own
+           expectation must hold *)
+        (if gok && ok then cls else None)))
   | _ -> ("!unknown-kind", false, false, "unknown", None)
 let () = run_driver handle
